@@ -69,8 +69,16 @@ def validate(rep, path, label, stats):
     if n == 0:
         rep.broken.append('no records for ' + label)
         return 0
-    CH = max(2000, min(60000, (n + 3) // 4))
-    chunks = [lines[i:i + CH] for i in range(0, n, CH)]
+    # chunks of <= 60000 lines and <= ~12 MB (JSON loading dominates), at least 4 chunks for the 4 processes
+    CH = max(1000, min(60000, (n + 3) // 4))
+    chunks, cur, size = [], [], 0
+    for ln in lines:
+        if cur and (len(cur) >= CH or size + len(ln) > 12000000):
+            chunks.append(cur)
+            cur, size = [], 0
+        cur.append(ln)
+        size += len(ln)
+    chunks.append(cur)
     def one(i):
         p = '%s.c%d' % (path, i)
         with open(p, 'w') as f:
@@ -125,15 +133,15 @@ def drive(rep, exe, args, out, label, after=()):
 def model_check(tier):
     """The M part; returns [(name, what, result)]."""
     if tier == 'quick':
-        plan = [('full', 5, 8), ('chan', 6, 4), ('num', 4, 2)]
-    else:
-        plan = [('full', 6, 10), ('chan', 7, 4), ('num', 6, 4)]
-    what = ('lemmas of ScpiExpr on every body <= %d bytes over alphabet %s: GreedyIsLongest, WellFormedAgree, SplitAgreesWithScan, '
+        plan = [('full', 5, 8, 0), ('chan', 6, 4, 0), ('num', 4, 2, 0)]
+    else:       # the nine-class space split by first byte into nine TLC processes
+        plan = [('full', 6, 4, k) for k in range(1, 10)] + [('chan', 7, 4, 0), ('num', 6, 4, 0)]
+    what = ('lemmas of ScpiExpr on every body <= %d bytes over alphabet %s%s: GreedyIsLongest, WellFormedAgree, SplitAgreesWithScan, '
             'Tolerance, NoIntroNoEntries, Monotone, NoMoreFromCount, Capacity, Exclusive, Denotation, VerdictAcceptsEntry, VerdictMalformed')
     def one(p):
-        a, n, w = p
-        r = lib.tlc('MCExpr', 'MCExpr.cfg', workers=w, env={'MAXLEN': n, 'ALPHA': a}, timeout=900, xmx='4g')
-        return 'MCExpr_%s_%d' % (a, n), what % (n, a), r
+        a, n, w, first = p
+        r = lib.tlc('MCExpr', 'MCExpr.cfg', workers=w, env={'MAXLEN': n, 'ALPHA': a, 'FIRST': first}, timeout=900, xmx='4g')
+        return 'MCExpr_%s_%d%s' % (a, n, '_first%d' % first if first else ''), what % (n, a, ' (first byte = class %d)' % first if first else ''), r
     with concurrent.futures.ThreadPoolExecutor(max_workers=3) as ex:
         return list(ex.map(one, plan))
 
@@ -142,7 +150,7 @@ def run(pid, tier):
     stats = collections.Counter()
     seed = lib.seed()
     maxlen = 5 if tier == 'quick' else 6
-    ngen = 6000 if tier == 'quick' else 60000
+    ngen = 6000 if tier == 'quick' else 30000
     rep.cov['rule'] = ('case = one expression body, queried through SCPI_Input + SCPI_Parameter at every index 0..9 with the three numeric-list '
                        'readers and, for every capacity 0..4, the channel-list reader (80 queries per body); bodies = all byte strings up to the '
                        'length bound over {digit, -, ., :, comma, !, @, blank, E} plus seeded grammar-generated lists (1..8 entries, 1..5 dimensions) '
